@@ -438,6 +438,29 @@ func c04Judge(c *c04Case) (fails []core.Failure, nontrivial bool, status, observ
 				break
 			}
 		}
+		// leg 3: the field by its name: a second field that is nothing but the
+		// name shows the same value (the name stands for the field as written,
+		// whatever the rewrite made of the field's own tree)
+		if nontrivial && len(fails) == 0 {
+			var want3 []string
+			for _, p := range ps {
+				v, _ := ref.Eval(c.Expr, &ref.Env{Key: p.K, Value: p.V})
+				want3 = append(want3, ref.T(p.K).Canon()+" | "+v.Canon()+" | "+v.Canon())
+			}
+			for _, mode := range []string{drv.Row, drv.Batch} {
+				st := store.New(c.Store)
+				st.NoLog = true
+				out := drv.Run("select key, "+etext+" as x, x as y where true", st, drv.Opt{Mode: mode, B: 2})
+				evals++
+				if out.BuildErr != nil && out.Panic == "" {
+					continue
+				}
+				if out.Failed() || !drv.EqualRows(out.Rows, want3) {
+					fails = append(fails, mk("query-vs-reference", "named-field-differs-from-field", fmt.Sprint(want3), mode+": "+out.Describe()))
+					break
+				}
+			}
+		}
 		if c.Bool {
 			var keys []string
 			for _, p := range ps {
